@@ -95,6 +95,10 @@ def _tickstep(tab, b, n):
         return -1
 
 
+def enc_key(c):
+    return ('c', c.index, c.subscript)
+
+
 def has_quit(br):
     return any(n.get('flag') == 'quit' for n in br)
 
@@ -141,7 +145,13 @@ def enc_entry(tab, entry, ids):
     nodes = t.get('nodes') or ()
     adds = t.get('adds') or ()
     rule = entry.rule
+    # what was on the target branch BEFORE this application (Node.step of the additions is the step just taken)
+    this = tab.current_step - 1
+    before = [n for n in t.branch if getattr(n, 'step', 0) < this]
+    pre_worlds = sorted({w for n in before for w in n.worlds()})
+    pre_consts = sorted({enc_key(c) for n in before if n.get('sentence') is not None for c in n['sentence'].constants})
     return {
+        'pre_worlds': pre_worlds, 'pre_consts': [list(c) for c in pre_consts],
         'rule': rule.name, 'closure': int(bool(getattr(rule, 'closure', False)) or rule.name.endswith('Closure')),
         'ticking': int(bool(rule.ticking)),
         'branch': index.get(id(t.branch), -1),
@@ -298,7 +308,7 @@ def run_job(job):
 
 def _noentry():
     return {'rule': '', 'closure': 0, 'ticking': 0, 'branch': -1, 'node': -1, 'nodes': [], 'adds': [],
-            'flag': '', 'is_last': 0}
+            'flag': '', 'is_last': 0, 'pre_worlds': [], 'pre_consts': []}
 
 
 def main(jobs, out, shard, nshards):
